@@ -14,7 +14,7 @@ class C18(Check):
             "non-trivial = at some point more items were outstanding than the buffer holds (overflow list in use) or Stop was called "
             "with items outstanding; distinct by input (capacity, mode, plan / concurrent parameters)")
     N_QUICK = 300
-    N_THOROUGH = 6000
+    N_THOROUGH = 4000
     SHARD = 400
     ASSUMPTIONS = [
         "Go channel/select semantics as stated in the header of coq/Queue/Queue.v (a select takes any ready case, default only when "
